@@ -182,6 +182,11 @@ PROPS["C03"] = {
     "stub_pkgs": DEFAULT_STUBS + [STATS],
     "harnesses": [
         {"pkg": AR, "func": "VerifH_C03_archiver_startstop", "replay_tries": 2, "covers": ["proxy", "direct", "stopped"]},
+        {"pkg": AR, "func": "VerifH_C03_archiver_workers", "replay_tries": 4, "covers": ["seed-in-flight", "stop-while-paused", "stopped"]},
+        {"pkg": "internal/pkg/postprocessor", "func": "VerifH_C03_postprocessor_stop", "replay_tries": 4, "covers": ["seed-in-flight", "stop-while-paused", "stopped"]},
+        {"pkg": "internal/pkg/preprocessor", "func": "VerifH_C03_preprocessor_stop", "replay_tries": 4, "covers": ["stop-while-paused", "stopped"]},
+        {"pkg": "internal/pkg/finisher", "func": "VerifH_C14_finisher_workers", "replay_tries": 4, "covers": ["stop-while-paused", "stopped"]},
+        {"pkg": RX, "func": "VerifH_C12_stop", "replay_tries": 10, "covers": ["stopped"]},
     ],
 }
 
